@@ -174,6 +174,12 @@ VH_MAIN_BEGIN
             dl++;
         }
     }
+#ifdef SHORT_OPS
+    /* "memset path" slice: big concrete dmax, operands short, so that more than 0x20 elements of slack remain
+       (the library then clears with memset instead of the element loop) and the copy loops stay short */
+    ASSUME(snull || (sl <= SHORT_OPS && (sterm || (HAS_SLEN && slen <= SHORT_OPS))));
+    ASSUME(!IS_CAT || dnull || (dterm && dl <= 1));
+#endif
     const int usable = !dnull && dmax > 0 && dmax <= RMAX && dmax <= dobj;
     const size_t n = sl;                  /* chars to copy: min(strlen(src), slen) (scap folded in) */
     const size_t base = IS_CAT ? dl : 0;  /* where they go */
